@@ -178,6 +178,9 @@ def call_builtin(E, name, args, kw, st, out, node):
         raise OutOfSubset("type() of %r" % (v,))
     if name in ("enumerate", "range", "zip"):
         return [(st, VTuple([VConst(("iter", name)), VTuple(args), VDict(kw)]))]
+    if name in ("max", "min") and len(args) == 2 and all(isinstance(x, VInt) for x in args):
+        a_, b_ = args[0].t, args[1].t
+        return [(st, VInt(z3.If(a_ >= b_, a_, b_) if name == "max" else z3.If(a_ <= b_, a_, b_)))]
     if name == "max":
         return [(st, max_(E, args, st, out, node))]
     if name in ("any", "all"):
@@ -319,6 +322,9 @@ def call_bound(E, b, args, kw, st, out, node):
         return file_method(E, r, m, args, kw, st, out, node)
     if isinstance(r, VRef):
         return E.call_method(r, m, args, kw, st, out, node)
+    if isinstance(r, VPy):
+        q = E.find_method(r.cls, m)
+        return inline_call(E, E.funcs[q], {}, [r] + list(args), kw, st, out, node, q, module=q.split(".")[0])
     if isinstance(r, VDict):
         if m == "get":
             k = args[0]
@@ -390,6 +396,8 @@ def str_method(E, r, m, args, kw, st, out, node):
     if m == "upper":
         return [(st, VStr(E.mk_upper(st, t)))]
     if m == "lower":
+        if E._conc(t) is not None:
+            return [(st, VStr(E._conc(t).lower()))]
         return [(st, VStr(lower(t)))]
     if m == "startswith":
         return [(st, VBool(z3.PrefixOf(args[0].t, t)))]
